@@ -982,3 +982,224 @@ def run_paren_unary_level(prog, tier, repo):
                               f'printed as `!!a` and `-(-b)` as `--b`, which do not parse')
     res.floor('unary operand decisions', n, 1)
     return [res]
+
+
+# ---------------------------------------------------------------------------------------------------------------------
+# PLAIN-POSITION (C08): the printer emits some children with the plain expression printer, without asking whether they need
+# parentheses (the scrutinee of `match`, the condition of `if`, call arguments, ...). That is right exactly when the parser
+# accepts *any* expression in that position, i.e. builds the child with the top production of the expression grammar. The
+# productions form a chain by fall-through (expression -> match -> if/else -> `||` -> ... -> base): P falls through to Q when
+# P can call Q before consuming a token. A position the parser fills from a production further down the chain rejects the
+# looser forms unless they are parenthesised, so printing it plainly yields text that does not parse.
+
+def run_plain_position(prog, tier, repo):
+    res = RuleResult('PLAIN-POSITION', 'C08: a child the printer emits without a parenthesis decision is parsed with the top production '
+                     'of the expression grammar (any expression is accepted there)')
+    # ---- parser side: productions returning E and taking only the parser
+    prods = {}
+    for b in prog.bodies.values():
+        if b.crate != 'samlang_parser' or '::tests' in b.name or b.kind == 'closure':
+            continue
+        if b.locals[0].k == 'adt' and b.locals[0].name == E and b.nargs >= 1:
+            prods[b.id] = b
+    if len(prods) < 8:
+        res.cannot_decide('the expression productions of the parser')
+        return [res]
+
+    def consumes(t):
+        nm = (callee(t)[1] or '').split('::')[-1]
+        return nm == 'consume' or nm.startswith('assert_and_consume')
+    fall = {}
+    for i, b in prods.items():
+        cfg = cfg_of(b)
+        cons = [bi for bi, bl in enumerate(b.blocks) if not bl.cleanup and bl.term[0] == 'call' and consumes(bl.term)]
+        outs = set()
+        for bi, bl in enumerate(b.blocks):
+            t = bl.term
+            if bl.cleanup or t[0] != 'call':
+                continue
+            cid = callee(t)[0]
+            if cid in prods and cid != i and bi in cfg.reachable(0, removed_nodes=cons):
+                # only calls that take no already-parsed expression: a continuation (`_with_start(parser, e)`) is not a fall-through
+                if not any(o[0] in ('c', 'm') and _unbox_e(b.locals[o[1].local]) for o in t[3]):
+                    outs.add(cid)
+        fall[i] = outs
+    indeg = {i: 0 for i in prods}
+    for i, outs in fall.items():
+        for o in outs:
+            indeg[o] += 1
+    # the top: the production reached by fall-through from nobody that itself falls through the longest chain
+    def depth_from(i, seen=()):
+        return 1 + max([depth_from(o, seen + (i,)) for o in fall[i] if o not in seen] or [0])
+    tops = sorted(prods, key=lambda i: -depth_from(i))
+    top = tops[0]
+    level = {top: 0}
+    frontier = [top]
+    while frontier:
+        nxt = []
+        for x in frontier:
+            for o in fall[x]:
+                if o not in level:
+                    level[o] = level[x] + 1
+                    nxt.append(o)
+        frontier = nxt
+    # a production that never consumes a token itself and falls through to exactly one production accepts the same
+    # language as that production (`parse_expression` = `parse_match`): they share a level
+    mc = {}
+
+    def may_consume(i, seen=None):
+        if i in mc:
+            return mc[i]
+        seen = seen if seen is not None else set()
+        if i in seen:
+            return False
+        seen.add(i)
+        bb = prog.bodies.get(i)
+        r = False
+        if bb is not None and bb.crate == 'samlang_parser':
+            for bl in bb.blocks:
+                if bl.cleanup or bl.term[0] != 'call':
+                    continue
+                if consumes(bl.term) or (callee(bl.term)[0] and may_consume(callee(bl.term)[0], seen)):
+                    r = True
+                    break
+            if not r:
+                for c in prog.closures_of.get(i, []):
+                    if may_consume(c, seen):
+                        r = True
+        mc[i] = r
+        return r
+
+    def transparent(i):
+        # falls through to exactly one production and nothing else it calls can consume a token: same language as its target
+        b = prods[i]
+        if len(fall[i]) != 1:
+            return False
+        tgt = next(iter(fall[i]))
+        for bl in b.blocks:
+            if bl.cleanup or bl.term[0] != 'call':
+                continue
+            cid = callee(bl.term)[0]
+            if cid == tgt:
+                continue
+            if consumes(bl.term) or (cid and may_consume(cid)):
+                return False
+        return True
+    order = sorted(level, key=lambda i: level[i])
+    shift = 0
+    new_level = {}
+    for i in order:
+        new_level[i] = level[i] - shift
+        if transparent(i):
+            shift += 1
+    level = new_level
+
+    def production_of(b, op):
+        cur = op[1].local if op[0] in ('c', 'm') else None
+        for _ in range(8):
+            sd = single_def(b, cur) if cur is not None else None
+            if not sd:
+                return None
+            if sd[1] == 'term':
+                nm = callee(sd[2])[1] or ''
+                if nm.split('::')[-1] in ('new',) and sd[2][3] and sd[2][3][0][0] in ('c', 'm'):
+                    cur = sd[2][3][0][1].local
+                    continue
+                return callee(sd[2])[0]
+            if sd[2][0] == 'use' and sd[2][1][0] in ('c', 'm'):
+                cur = sd[2][1][1].local
+                continue
+            return None
+        return None
+    built = {}      # (struct short name, field) -> set of production ids
+    for b in prog.bodies.values():
+        if b.crate != 'samlang_parser' or '::tests' in b.name:
+            continue
+        for bl in b.blocks:
+            if bl.cleanup:
+                continue
+            for st in bl.stmts:
+                if st[0] == 'a' and st[2][0] == 'agg' and st[2][1][0] == 'adt' and '::source::expr::' in st[2][1][1]:
+                    adt = prog.adts.get(st[2][1][1])
+                    if adt is None or adt.kind != 'struct':
+                        continue
+                    for k, f in enumerate(adt.variants[0].fields):
+                        if k < len(st[2][2]) and _unbox_e(f.ty):
+                            g = production_of(b, st[2][2][k])
+                            if g is not None:
+                                built.setdefault((adt.name.split('::')[-1], f.name), set()).add(g)
+    # ---- printer side: children handed to the plain printer
+    deciders = [b for b in prog.bodies.values() if b.crate == 'samlang_printer' and b.kind != 'closure'
+                and b.name.endswith('create_doc_for_subexpression_considering_precedence_level')]
+    plain = {b.id for b in prog.bodies.values() if b.crate == 'samlang_printer' and b.name.endswith('::create_doc')}
+    if not plain:
+        res.cannot_decide('the plain expression printer')
+        return [res]
+    n = 0
+    seen = set()
+    # positions under precedence management (handed to the decider somewhere) belong to PAREN-SINK / PREC-ISO
+    decided = set()
+    dec_ids = {d.id for d in deciders}
+    for b in prog.bodies.values():
+        if b.crate != 'samlang_printer':
+            continue
+        for bl in b.blocks:
+            t = bl.term
+            if bl.cleanup or t[0] != 'call' or callee(t)[0] not in dec_ids:
+                continue
+            for o in t[3]:
+                if o[0] in ('c', 'm') and _unbox_e(b.locals[o[1].local]):
+                    r, p = operand_root(b, o)
+                    fs = [e for e in p if e[0] == 'f']
+                    if fs and prog.adts.get(fs[-1][1]) is not None:
+                        decided.add((prog.adts[fs[-1][1]].name.split('::')[-1], fs[-1][4]))
+    for b in sorted(prog.bodies.values(), key=lambda x: x.name):
+        if b.crate != 'samlang_printer' or '::tests' in b.name:
+            continue
+        for bi, bl in enumerate(b.blocks):
+            t = bl.term
+            if bl.cleanup or t[0] != 'call' or callee(t)[0] not in plain:
+                continue
+            for o in t[3]:
+                if o[0] not in ('c', 'm') or not _unbox_e(b.locals[o[1].local]):
+                    continue
+                r, p = operand_root(b, o)
+                fs = [e for e in p if e[0] == 'f']
+                if not fs:
+                    continue
+                a = prog.adts.get(fs[-1][1])
+                if a is None or '::source::expr::' not in a.name:
+                    continue
+                pos = (a.name.split('::')[-1], fs[-1][4])
+                if pos in seen or pos not in built or pos in decided:
+                    continue
+                # consumed by a parenthesiser right away? then the position is delimited
+                if t[4] is not None and not t[4].proj:
+                    uses = [bl2.term for bl2 in b.blocks if not bl2.cleanup and bl2.term[0] == 'call'
+                            and any(o2[0] in ('c', 'm') and o2[1].local == t[4].local for o2 in bl2.term[3])]
+                    if len(uses) == 1 and 'surrounded' in (callee(uses[0])[1] or ''):
+                        continue
+                seen.add(pos)
+                n += 1
+                lv = [(level.get(g), g) for g in built[pos]]
+                key = f'plain:{pos[0]}.{pos[1]}'
+                bad = [(l, g) for l, g in lv if l is not None and l > 0]
+                if bad:
+                    g = prods[bad[0][1]]
+                    res.violation(key, b.loc(t[7]), f'{b.name} prints {pos[0]}.{pos[1]} without a parenthesis decision, but the parser fills '
+                                  f'that position from {g.name.split("::")[-1]}, {bad[0][0]} step(s) below the top production '
+                                  f'{prods[top].name.split("::")[-1]}: a looser expression there (`if`/`match`, or a lower-precedence '
+                                  f'operator) is only accepted in parentheses, which the printer drops - the formatted text does not parse')
+                else:
+                    res.ok(key, b.loc(t[7]), 'parsed with the top production' if all(l == 0 for l, _ in lv) else 'production not on the fall-through chain (delimited)')
+    res.floor('plainly printed child positions with a traced production', n, 3)
+    res.analysed['production_levels'] = {prods[i].name.split('::')[-1]: l for i, l in sorted(level.items(), key=lambda kv: kv[1])}
+    return [res]
+
+
+def _unbox_e(t):
+    from ..facts import strip_refs
+    t = strip_refs(t)
+    while t.k == 'adt' and t.name.startswith('std::boxed::Box') and t.args:
+        t = strip_refs(t.args[0])
+    return t.k == 'adt' and t.name == E
